@@ -20,6 +20,9 @@ def run(ctx):
                "os.rename is atomic")
     ctx.rule("R07.1", "every journal-file write is inside `with get_lock_file(self._lock)`")
     J.rule_write_under_lock(ctx, "R07.1")
+    ctx.rule("R07.7", "what is appended is a run of whole records: one write per batch, every record newline-terminated, and every newline written terminates a "
+             "record (an empty batch writes nothing)")
+    J.rule_append_ordering(ctx, "R07.7")
     ctx.rule("R07.2", "acquire() returns True only on the normal continuation of an exclusive create")
     J.rule_exclusive_acquire(ctx, "R07.2")
     ctx.rule("R07.3", "release = rename-to-unique then unlink, OSError->RuntimeError; released on "
